@@ -28,6 +28,7 @@ const (
 	nSeq    = "CallSequence"
 	nReset  = "ResetSequence"
 	nSet    = "ObjectSetters"
+	nAlias  = "ObjectAliasing"
 )
 
 // ---------------------------------------------------------------- invokers
@@ -154,54 +155,102 @@ func primed(f *run.Fn) *run.Fn {
 
 // ObjectSetters: a script of SetX / SetY / SetZ / SetZoom / ResetExtendedSpatialID applied to one fresh object; after each step the
 // observation is [error?; ID(); FieldParams(); [HZoom(); X(); Y(); VZoom(); Z()]]
+// applyCmd runs one command of a constructor/setter script on *po (New replaces the object by the one the constructor returns).
+// ok = false: ill-formed command (shrinker proposal)
+func applyCmd(po **object.ExtendedSpatialID, c w.Val) (isErr bool, ok bool) {
+	cl, isL := c.(w.List)
+	if !isL || len(cl) < 2 {
+		return false, false
+	}
+	name, isS := cl[0].(w.Str)
+	if !isS {
+		return false, false
+	}
+	o := *po
+	switch {
+	case (name == "Reset" || name == "New") && len(cl) == 2:
+		sv, isStr := cl[1].(w.Str)
+		if !isStr {
+			return false, false
+		}
+		if name == "Reset" {
+			return o.ResetExtendedSpatialID(string(sv)) != nil, true
+		}
+		n, err := object.NewExtendedSpatialID(string(sv))
+		if n == nil {
+			panic("NewExtendedSpatialID returned a nil object")
+		}
+		*po = n
+		return err != nil, true
+	case name == "Zoom" && len(cl) == 3:
+		if _, isI := cl[1].(w.Int); !isI {
+			return false, false
+		}
+		if _, isI := cl[2].(w.Int); !isI {
+			return false, false
+		}
+		o.SetZoom(w.AsInt(cl[1]), w.AsInt(cl[2]))
+		return false, true
+	case (name == "X" || name == "Y" || name == "Z") && len(cl) == 2:
+		if _, isI := cl[1].(w.Int); !isI {
+			return false, false
+		}
+		switch name {
+		case "X":
+			o.SetX(w.AsInt(cl[1]))
+		case "Y":
+			o.SetY(w.AsInt(cl[1]))
+		default:
+			o.SetZ(w.AsInt(cl[1]))
+		}
+		return false, true
+	}
+	return false, false
+}
+
+// readBack: ID(), FieldParams() and the five getters of the object
+func readBack(o *object.ExtendedSpatialID) []w.Val {
+	return []w.Val{w.S(o.ID()), w.Ints(o.FieldParams()), w.L(w.I(o.HZoom()), w.I(o.X()), w.I(o.Y()), w.I(o.VZoom()), w.I(o.Z()))}
+}
+
 func fnSetters() *run.Fn {
 	return &run.Fn{Name: nSet, Invoke: func(a []w.Val) w.Val {
 		o := &object.ExtendedSpatialID{}
 		var out w.List = w.List{}
 		for _, c := range w.AsList(a[0]) {
-			cl, ok := c.(w.List)
-			if !ok || len(cl) < 2 {
-				return w.S("ill-formed script")
-			}
-			name, ok := cl[0].(w.Str)
+			isErr, ok := applyCmd(&o, c)
 			if !ok {
 				return w.S("ill-formed script")
 			}
-			isErr := false
-			switch {
-			case name == "Reset" && len(cl) == 2:
-				sv, ok := cl[1].(w.Str)
-				if !ok {
-					return w.S("ill-formed script")
-				}
-				isErr = o.ResetExtendedSpatialID(string(sv)) != nil
-			case name == "Zoom" && len(cl) == 3:
-				if _, ok := cl[1].(w.Int); !ok {
-					return w.S("ill-formed script")
-				}
-				if _, ok := cl[2].(w.Int); !ok {
-					return w.S("ill-formed script")
-				}
-				o.SetZoom(w.AsInt(cl[1]), w.AsInt(cl[2]))
-			case (name == "X" || name == "Y" || name == "Z") && len(cl) == 2:
-				if _, ok := cl[1].(w.Int); !ok {
-					return w.S("ill-formed script")
-				}
-				switch name {
-				case "X":
-					o.SetX(w.AsInt(cl[1]))
-				case "Y":
-					o.SetY(w.AsInt(cl[1]))
-				default:
-					o.SetZ(w.AsInt(cl[1]))
-				}
-			default:
-				return w.S("ill-formed script")
-			}
-			out = append(out, w.L(w.B(isErr), w.S(o.ID()), w.Ints(o.FieldParams()),
-				w.L(w.I(o.HZoom()), w.I(o.X()), w.I(o.Y()), w.I(o.VZoom()), w.I(o.Z()))))
+			out = append(out, append(w.List{w.B(isErr)}, readBack(o)...))
 		}
 		return out
+	}}
+}
+
+// ObjectAliasing: the same string is parsed twice (A, B), a script runs on A, the string is parsed a third time (C); observed the
+// read-backs of A, B, C. Two objects from two parses must never share state.
+func fnAliasing() *run.Fn {
+	return &run.Fn{Name: nAlias, Invoke: func(a []w.Val) w.Val {
+		s := w.AsStr(a[0])
+		oa, err := object.NewExtendedSpatialID(s)
+		if err != nil {
+			return w.Err{V: w.Nil{}}
+		}
+		ob, err := object.NewExtendedSpatialID(s)
+		if err != nil {
+			return w.Err{V: w.Nil{}}
+		}
+		for _, c := range w.AsList(a[1]) {
+			if _, ok := applyCmd(&oa, c); !ok {
+				return w.S("ill-formed script")
+			}
+		}
+		oc, err := object.NewExtendedSpatialID(s)
+		if err != nil {
+			return w.Err{V: w.Nil{}}
+		}
+		return w.L(w.List(readBack(oa)), w.List(readBack(ob)), w.List(readBack(oc)))
 	}}
 }
 
@@ -796,13 +845,31 @@ func setterVal(g *Gen, wide eid, which int) int64 {
 	}
 	return wide.f
 }
-func caseSetters(g *Gen) run.Case {
-	n := 3 + g.Intn(6)
+func setterScript(g *Gen, n int, withNew bool) (w.List, map[string]bool) {
 	var cmds w.List
 	kinds := map[string]bool{}
+	lastNew := ""
 	for i := 0; i < n; i++ {
 		wd := wideEID(g)
-		switch g.Intn(9) {
+		k := g.Intn(9)
+		if withNew && g.Chance(0.22) {
+			k = 9
+		}
+		switch k {
+		case 9: // constructor in the middle of the script; often the SAME string as the previous constructor call (repeat parse)
+			s := wd.str(g, false)
+			switch {
+			case lastNew != "" && g.Chance(0.5):
+				s = lastNew
+			case g.Chance(0.15):
+				s = malformedFor(g, 5)
+			case g.Chance(0.4):
+				hh, vv := zoomPair(g, 35)
+				s = validEID(g, hh, vv).str(g, false)
+			}
+			lastNew = s
+			cmds = append(cmds, w.L(w.S("New"), w.S(s)))
+			kinds["New"] = true
 		case 0, 1:
 			cmds = append(cmds, w.L(w.S("X"), w.I(setterVal(g, wd, 0))))
 			kinds["X"] = true
@@ -833,7 +900,31 @@ func caseSetters(g *Gen) run.Case {
 			kinds["Reset"] = true
 		}
 	}
+	return cmds, kinds
+}
+func caseSetters(g *Gen) run.Case {
+	n := 3 + g.Intn(6)
+	cmds, kinds := setterScript(g, n, true)
 	return run.Case{Prop: "C10", Fn: nSet, Args: []w.Val{cmds}, Tags: []string{"sequence", "object-setters", Tag("seqlen=%d", n), Tag("setter-kinds=%d", len(kinds))}}
+}
+
+// the same string parsed twice, a script of 1..5 setters on the first object, a third parse: the untouched objects must read back the string
+func caseAliasing(g *Gen) run.Case {
+	var s string
+	tags := []string{"sequence", "object-aliasing"}
+	switch {
+	case g.Chance(0.05):
+		s = malformedFor(g, 5)
+		tags = append(tags, "malformed")
+	case g.Chance(0.4):
+		s = wideEID(g).str(g, false)
+	default:
+		hh, vv := zoomPair(g, 35)
+		s = validEID(g, hh, vv).str(g, g.Chance(0.5))
+	}
+	n := 1 + g.Intn(5)
+	cmds, _ := setterScript(g, n, g.Chance(0.3))
+	return run.Case{Prop: "C10", Fn: nAlias, Args: []w.Val{w.S(s), cmds}, Tags: append(tags, Tag("seqlen=%d", n))}
 }
 
 func call(fn string, args ...w.Val) w.Val { return append(w.List{w.S(fn)}, args...) }
@@ -909,7 +1000,7 @@ func init() {
 	Scale["C10"] = 10000
 	Registry["C10"] = func(r *run.Runner, g *Gen, n int) {
 		base := map[string]*run.Fn{}
-		for _, f := range []*run.Fn{fnS2E(), fnE2S(), fnRoundTrip(), fnParsePrint(), fnExpand(), fnVoxel(), fnResetSeq(), fnSetters()} {
+		for _, f := range []*run.Fn{fnS2E(), fnE2S(), fnRoundTrip(), fnParsePrint(), fnExpand(), fnVoxel(), fnResetSeq(), fnSetters(), fnAliasing()} {
 			base[f.Name] = f
 			r.Register(primed(f))
 		}
@@ -922,8 +1013,10 @@ func init() {
 					c = caseExpandSeq(g)
 				case k < 11:
 					c = caseResetSeq(g)
-				case k < 15:
+				case k < 14:
 					c = caseSetters(g)
+				case k < 16:
+					c = caseAliasing(g)
 				default:
 					c = caseCallSeq(g)
 				}
